@@ -92,7 +92,12 @@ def oracle(res, nmodels, nsteps):
     rest = k % 3 == 1
     m.opt.integrator = [mujoco.mjtIntegrator.mjINT_EULER, mujoco.mjtIntegrator.mjINT_RK4, mujoco.mjtIntegrator.mjINT_IMPLICITFAST][k % 3 if not rest else (k // 3) % 3]
     if rest:
+      # nothing may produce angular velocity during the step: no gravity torque, no control, no springs
       d.qvel[:] = 0
+      d.ctrl[:] = 0
+      m.opt.gravity[:] = 0
+      m.jnt_stiffness[:] = 0
+      m.opt.disableflags |= int(mujoco.mjtDisableBit.mjDSBL_CONTACT) | int(mujoco.mjtDisableBit.mjDSBL_ACTUATION)
     for j in range(m.njnt):
       a = m.jnt_qposadr[j]
       if zero_quat and m.jnt_type[j] == mujoco.mjtJoint.mjJNT_BALL:
